@@ -93,7 +93,7 @@ def check(pid, tier, only=None):
             kani_meta.append(meta)
             for o in lst:
                 r = res.get(o["harness"])
-                rec = {"name": o["name"], "engine": "kani", "backend": "kani 0.68 / cbmc 6.11 / cadical",
+                rec = {"name": o["name"], "engine": "kani", "backend": "kani 0.68 / cbmc 6.11 / %s" % o.get("solver", "cadical"),
                        "complete": o.get("complete", True), "bound": o.get("bound"), "functions": o.get("functions", []),
                        "clause": o.get("clause", "")}
                 records.append(rec)
@@ -249,6 +249,8 @@ def write_evidence(pid, tier, seed, mod, records, violations, broken, kani_meta,
         "wall_s": round(wall, 1),
         "violations": len(violations),
     }
+    if hasattr(mod, "extra_evidence"):
+        ev["coverage"].update(mod.extra_evidence())
     os.makedirs(os.path.join(VERIF, "evidence"), exist_ok=True)
     with open(os.path.join(VERIF, "evidence", pid + ".json"), "w") as f:
         json.dump(ev, f, indent=1)
